@@ -75,7 +75,11 @@ Inductive case :=
    succeeds and evs3 arrive.  obs1 = what the first file holds, obs3 = what the new file holds:
    exactly what the rule lets through of evs3 under the filter set by ALL commands before,
    possibly preceded by the last few permitted lines of evs2 that were still on their way *)
-| CRotated (mt : tab (list string)) (evs1 evs2 evs3 : list fev) (obs1 obs3 : list string).
+| CRotated (mt : tab (list string)) (evs1 evs2 evs3 : list fev) (obs1 obs3 : list string)
+(* the lines of a play file parsed by the real ParseLine and PLAYED by the real Play against
+   instrumented consumers: the stamps (ns since the start) each consumer took; tol in ns *)
+| CPlay (durs : tab (option Z)) (res : tab bool) (ints : tab (option Z)) (ls : list string)
+        (tol : Z) (obs : pobs).
 
 (* one concrete schedule of the pipeline model: the consumer reads until it has pause lines, then
    the filter moves for as long as it can (the channel fills up, the send blocks), and only then
@@ -120,6 +124,8 @@ Definition case_ok (c : case) : bool :=
       let p := drive (match_tab mt) cap pause (3 * List.length evs + 3) (pinit evs) in
       pdone p && list_eqb String.eqb (deliv p) obs
   | CCancelled mt evs obs => prefixb obs (frun (match_tab mt) fnew evs)
+  | CPlay durs res ints ls tol obs =>
+      play_check tol 0 (parse_file (dur_tab durs) (re_tab res) (int_tab ints) ls) obs
   | CRotated mt evs1 evs2 evs3 obs1 obs3 =>
       let m := match_tab mt in
       let f1 := fstate fnew evs1 in
@@ -149,6 +155,11 @@ Definition case_nontrivial (c : case) : bool :=
   | CFilter mt evs _ | CCancelled mt evs _ =>
       let out := frun (match_tab mt) fnew evs in
       negb (is_nil out) && (List.length out <? List.length (lines_of evs))%nat
+  | CPlay durs res ints ls _ _ =>
+      (* at least one conditional send and one delayed send in the model's reading of the file *)
+      let its := parse_file (dur_tab durs) (re_tab res) (int_tab ints) ls in
+      existsb (fun i => match i with ISend _ _ p k T => complete_cond p k T | _ => false end) its
+      && existsb (fun i => match i with ISend _ d _ _ _ => (0 <? d)%Z | _ => false end) its
   | CRotated mt evs1 evs2 evs3 _ _ =>
       let out := frun (match_tab mt) (fstate (fstate fnew evs1) evs2) evs3 in
       (10 <? List.length out)%nat && (List.length out <? List.length (lines_of evs3))%nat
